@@ -398,9 +398,9 @@ func TestC19(t *testing.T) {
 		kFeat = 3
 	}
 	cfgs := allConfigs(thorough, kFeat)
-	infls := []inflight{inflNone, inflFromXLate, inflToXLate}
+	infls := []inflight{inflNone, inflFromXLate, inflToXLate, inflHSDupLate}
 	if thorough {
-		infls = []inflight{inflNone, inflFromXLate, inflToXLate, inflFromXEarly, inflToXEarly}
+		infls = []inflight{inflNone, inflFromXLate, inflToXLate, inflFromXEarly, inflToXEarly, inflHSDupLate, inflHSDupEarly}
 	}
 	const maxRec = 3
 	var cases []run.Case
